@@ -781,3 +781,84 @@ func ruleSafeHandleBuiltOnlyFromSafe(p *Program, r *Report) {
 }
 
 func init() { register("C18", Rule{"S18e", ruleSafeHandleBuiltOnlyFromSafe}) }
+
+// S18f: the configuration of a sandboxed evaluation comes from that evaluation's own argument.  What a sandbox may
+// reach is its `scope` and `stdlib`; they are parsed from the config tuple handed to //eval.evaluator.  If the
+// parsed configuration can come from package-level state (a cache shared by all evaluators), one evaluator can be
+// handed another's scope — and value equality is no safe cache key here: closures compare equal by text (R02h).
+func ruleEvalConfigFromArgument(p *Program, r *Report) {
+	r.Begin("S18f", "sandbox configuration is not shared: no function of package syntax that returns an EvalConfig returns a value that depends on a package-level variable (a cache or registry) — the configuration is a function of the config tuple passed to this evaluator", 1)
+	defer r.End()
+	n := 0
+	for _, fn := range p.RepoFns {
+		if PkgPathOf(fn) != Mod+"/syntax" || fn.Blocks == nil {
+			continue
+		}
+		res := fn.Signature.Results()
+		idx := -1
+		for i := 0; i < res.Len(); i++ {
+			if nt, ok := Deref(res.At(i).Type()).(*types.Named); ok && nt.Obj().Name() == "EvalConfig" {
+				idx = i
+			}
+		}
+		if idx < 0 {
+			continue
+		}
+		n++
+		r.Fn(FnName(fn))
+		var bad *ssa.Global
+		var pos token.Pos
+		for _, b := range fn.Blocks {
+			ret, ok := b.Instrs[len(b.Instrs)-1].(*ssa.Return)
+			if !ok || idx >= len(ret.Results) {
+				continue
+			}
+			DependsOn(RetVal(ret, idx), func(x ssa.Value) bool {
+				if g, ok := x.(*ssa.Global); ok && g.Pkg != nil && InRepoPkg(g.Pkg) && !initOnlyGlobal(p, g) {
+					if bad == nil {
+						bad, pos = g, ret.Pos()
+					}
+					return true
+				}
+				return false
+			})
+		}
+		if bad != nil {
+			r.Viol("config@"+FnName(fn), fmt.Sprintf("%s can return a sandbox configuration taken from the package-level variable %s: state shared by every evaluator in the process, so an evaluation can run with the scope / stdlib that was given to another one", FnName(fn), bad.Name()), pos)
+		} else {
+			r.OK("config@"+FnName(fn), "derived from the arguments only", fn.Pos())
+		}
+	}
+	if n == 0 {
+		r.Undecided("sites", "no function returning an EvalConfig found in package syntax", 0)
+	}
+}
+
+func init() { register("C18", Rule{"S18f", ruleEvalConfigFromArgument}) }
+
+// initOnlyGlobal: a package variable that is given its value by the package initialiser and never stored again, and
+// whose type is not a container that is changed in place (map, sync.Map, slice): a constant in all but name.
+func initOnlyGlobal(p *Program, g *ssa.Global) bool {
+	switch t := Deref(g.Type()).Underlying().(type) {
+	case *types.Map, *types.Slice:
+		return false
+	case *types.Struct:
+		if strings.HasPrefix(Deref(g.Type()).String(), "sync.") {
+			return false
+		}
+		_ = t
+	}
+	inInit, elsewhere := 0, 0
+	for _, fn := range p.RepoFns {
+		ForEachInstr(fn, func(ins ssa.Instruction) {
+			if st, ok := ins.(*ssa.Store); ok && st.Addr == ssa.Value(g) {
+				if fn.Name() == "init" || strings.HasPrefix(fn.Name(), "init#") {
+					inInit++
+				} else {
+					elsewhere++
+				}
+			}
+		})
+	}
+	return inInit > 0 && elsewhere == 0
+}
